@@ -147,7 +147,7 @@ def theorems_in(path):
     src = open(path).read()
     src = re.sub(r"/-.*?-/", "", src, flags=re.S)
     src = re.sub(r"--[^\n]*", "", src)
-    return re.findall(r"^\s*(?:private\s+|protected\s+)?theorem\s+([A-Za-z_][\w.']*)", src, re.M)
+    return re.findall(r"^\s*(?:private\s+|protected\s+)?theorem\s+([^\s({\[:]+)", src, re.M)
 
 
 def module_path(mod):
@@ -197,13 +197,13 @@ def audit(modules):
     axioms = {}
     problems = []
     # output: "'Name' depends on axioms: [a, b]" or "'Name' does not depend on any axioms"
-    for m in re.finditer(r"'([^']+)' depends on axioms: \[([^\]]*)\]", out):
+    for m in re.finditer(r"^'(.+)' depends on axioms: \[([^\]]*)\]", out, re.M):
         ax = [a.strip() for a in m.group(2).replace("\n", " ").split(",") if a.strip()]
         axioms[m.group(1)] = ax
         bad = [a for a in ax if a not in ALLOWED_AXIOMS]
         if bad:
             problems.append("%s depends on %s" % (m.group(1), bad))
-    for m in re.finditer(r"'([^']+)' does not depend on any axioms", out):
+    for m in re.finditer(r"^'(.+)' does not depend on any axioms", out, re.M):
         axioms[m.group(1)] = []
     for n in names:
         if n not in axioms:
